@@ -54,6 +54,9 @@ def run(ctx):
     vlib.note_events(ctx, g + t, keep=0)
     for e in g[:2] + t[:3]:
         ctx.samples.append(slim(e))
+    vlib.call_history_model(ctx)
+    vlib.call_histories(ctx, binp, [e for e in t if e["in"].get("curve") != "toy"], ["slip10.master", "slip10.path"], "Slip10Trace",
+                        "real slip10 derivation differs from the Slip10 specification", settle=lambda evs: not any(is_ed25519_normal(x) for x in evs))
     bad = vlib.validate_trace(ctx, "Slip10Trace", g + t)
     for e in vlib.reproduce(ctx, binp, bad, history=g + t):
         ctx.bad.append(dict(event=slim(e), reason="real slip10 derivation differs from the Slip10 specification"))
